@@ -46,7 +46,7 @@ PROPS = {
     "C13": dict(level="exploration"),
     "C14": dict(level="exploration"),
     "C15": dict(level="exploration"),
-    "C16": dict(level="exploration"),
+    "C16": dict(level="exploration", cli=True),
     "C17": dict(level="exploration"),
     "C18": dict(level="exploration"),
     "C19": dict(level="exploration", cli=True),
